@@ -119,7 +119,7 @@ func (g *genStorage) Config(rng *Rng, tier string) Config {
 	}
 	c.InvCheckPeriod = uint(rng.Pick64(0, 0, 0, 1, 7))
 	g.jumps = g.profile == "gauges" || g.profile == "usage" || rng.Chance(1, 4)
-	allowed := []string{"tx_dup", "tx_delay", "tx_reorder", "out_of_gas", "crash_restart", "tx_drop"}
+	allowed := []string{"tx_dup", "tx_delay", "tx_reorder", "out_of_gas", "crash_restart", "tx_drop", "multi_msg"}
 	g.net = newNet(rng, allowed, int(3*g.pw))
 	g.nb = 30 + rng.Intn(35)
 	if tier == "thorough" {
